@@ -32,6 +32,9 @@ CLAIMED['C11'] = ('other', 'bounded symbolic execution with every rng draw a sym
 CLAIMED['C12'] = ('other', 'bounded symbolic execution with reward parameters as symbolic reals: each built-in reward/termination component equals an oracle restating its docstring for ALL parameter values (decided in linear real arithmetic) on next states produced by the real dynamics and on arbitrary next states; reduce_sum/reduce_any/reduce_all are decided parametrically with stub components returning fresh symbolic values; functional_step is shown to evaluate reward and termination on (state, action, returned next state), so the exit reward is paid exactly when exit termination fires',
                   'trusts z3, the proxy layer, the stubs; distance rewards are checked under their documented uniqueness precondition on the stated structured grids; reals stand for floats (no rounding claim)', 'DESIGN.md §5 C12')
 
+CLAIMED['C13'] = ('other', 'bounded symbolic execution of each of the 8 reset functions with symbolic parameters and every rng draw a symbolic variable: on every path the call raises ValueError or returns a state satisfying the well-formedness and inventory oracle of the property; valid shipped-style parameter combinations must produce a state on some path (vacuity guard)',
+                  'trusts z3, the proxy layer, the SymRng contract stub; shapes/counts beyond the bounds (shipped 9x9..13x13 rooms) are outside', 'DESIGN.md §5 C13')
+
 NOT_APPLICABLE = {
     'C19': 'floating-point trigonometric ray kernel (sin/cos/arctan2 via libm/numpy, round-to-nearest of accumulated float steps): no SMT theory for the transcendental part, the only FP-expressible lemma timed out (300 s) on z3 and cvc5, and the remaining inputs form a small finite domain a solver would merely enumerate; see DESIGN.md §5 C19',
 }
